@@ -106,4 +106,298 @@ theorem setFloat_col (ext : Ext) (g : AggregateSet) (k : Bytes) (x : Int) :
   simp [GoIndex.upd, colOf, GoMap.get?_set_eq]
   intro k' hk'; exact GoMap.get?_set_ne _ _ _ _ hk'
 
+/-- **The translated per-line `Aggregate` is the model's `contribution` + `combine`** (server side,
+    `clientAggregation = false`): under the storage key the column becomes `combine op old c` for the
+    contribution `c` of the value, every other key is untouched, an error is returned exactly when the
+    value contributes nothing. -/
+theorem Aggregate_refines (ext : Ext) (hpf : ParseFloatIs ext) (g : AggregateSet) (k v : Bytes) (op : AggOp)
+    (hop : op ≠ .undef) (hwf : ColWf op (colOf g k)) :
+    let r := AggregateSet.Aggregate ext g k (opCode op) v false
+    (r.2 = none ↔ (contribOf op v).isSome) ∧
+    colOf r.1 k = (match contribOf op v with | some c => combine op (colOf g k) c | none => colOf g k) ∧
+    (∀ k', k' ≠ k → colOf r.1 k' = colOf g k') ∧ r.1.Samples = g.Samples := by
+  intro r
+  have hp := hpf v
+  cases op with
+  | undef => exact absurd rfl hop
+  | count =>
+    have h := addFloat_col ext g k 1
+    simp only [ColWf] at hwf
+    simp only [r, AggregateSet.Aggregate, opCode, Count]
+    simp [contribOf, combine, h.1, h.2.1, h.2.2]
+    exact ⟨rfl, hwf, h.2.1⟩
+  | last =>
+    have h := setString_col ext g k v
+    simp only [ColWf] at hwf
+    simp only [r, AggregateSet.Aggregate, opCode, Count, Last]
+    simp [contribOf, combine, h.1, h.2.1, h.2.2, hwf]
+    exact ⟨rfl, h.2.1⟩
+  | len =>
+    have h1 := setString_col ext g k v
+    have h2 := setFloat_col ext (AggregateSet.setString ext g k v) k (goConv (GoLen.len v))
+    have hred : r = (AggregateSet.setFloat ext (AggregateSet.setString ext g k v) k (goConv (GoLen.len v)), none) := by
+      simp [r, AggregateSet.Aggregate, opCode, Count, Last, Len, GoZero.zero]
+    rw [hred]
+    simp only [contribOf, combine, Option.isSome_some, if_true]
+    refine ⟨by simp, ?_, ?_, ?_⟩
+    · rw [h2.1, h1.1]; simp [goConv, GoLen.len]
+    · intro k' hk'; rw [h2.2.1 k' hk', h1.2.1 k' hk']
+    · rw [h2.2.2, h1.2.2]
+  | sum =>
+    simp only [ColWf] at hwf
+    simp only [r, AggregateSet.Aggregate, opCode, Count, Last, Len, Gen.Mapr.Sum]
+    cases hn : parseNum v with
+    | none =>
+      rw [hn] at hp
+      cases he : (ext.parseFloat v).2 with
+      | none => exact absurd he hp
+      | some e => simp [contribOf, hn, he]
+    | some n =>
+      rw [hn] at hp
+      have h := addFloat_col ext g k n
+      simp [contribOf, hn, hp, combine, h.1, h.2.1, h.2.2]
+      exact ⟨hwf, h.2.1⟩
+  | avg =>
+    simp only [ColWf] at hwf
+    simp only [r, AggregateSet.Aggregate, opCode, Count, Last, Len, Gen.Mapr.Sum, Avg]
+    cases hn : parseNum v with
+    | none =>
+      rw [hn] at hp
+      cases he : (ext.parseFloat v).2 with
+      | none => exact absurd he hp
+      | some e => simp [contribOf, hn, he]
+    | some n =>
+      rw [hn] at hp
+      have h := addFloat_col ext g k n
+      simp [contribOf, hn, hp, combine, h.1, h.2.1, h.2.2]
+      exact ⟨hwf, h.2.1⟩
+  | min =>
+    simp only [ColWf] at hwf
+    simp only [r, AggregateSet.Aggregate, opCode, Count, Last, Len, Gen.Mapr.Sum, Avg, Gen.Mapr.Min]
+    cases hn : parseNum v with
+    | none =>
+      rw [hn] at hp
+      cases he : (ext.parseFloat v).2 with
+      | none => exact absurd he hp
+      | some e => simp [contribOf, hn, he]
+    | some n =>
+      rw [hn] at hp
+      have h := addFloatMin_col ext g k n
+      simp [contribOf, hn, hp, combine, h.1, h.2.1, h.2.2]
+      exact ⟨hwf, h.2.1⟩
+  | max =>
+    simp only [ColWf] at hwf
+    simp only [r, AggregateSet.Aggregate, opCode, Count, Last, Len, Gen.Mapr.Sum, Avg, Gen.Mapr.Min, Gen.Mapr.Max]
+    cases hn : parseNum v with
+    | none =>
+      rw [hn] at hp
+      cases he : (ext.parseFloat v).2 with
+      | none => exact absurd he hp
+      | some e => simp [contribOf, hn, he]
+    | some n =>
+      rw [hn] at hp
+      have h := addFloatMax_col ext g k n
+      simp [contribOf, hn, hp, combine, h.1, h.2.1, h.2.2]
+      exact ⟨hwf, h.2.1⟩
+
+/-! ### `Merge` -/
+
+/-- observational equality of column states: for count / sum / avg an absent number and 0 are the same
+    (every rendering and every later merge reads an absent number as 0), otherwise equality -/
+def ColObs (op : AggOp) (a b : Col) : Prop :=
+  match op with
+  | .count | .sum | .avg => a.num.getD 0 = b.num.getD 0 ∧ a.str = b.str
+  | _ => a = b
+
+def genSel (sc : SelCond) : selectCondition := ⟨sc.field, sc.storage, opCode sc.op⟩
+
+/-- the body of the translated `Merge` loop, as the translator emitted it -/
+def mergeBody (ext : Ext) (set' : AggregateSet) (s : AggregateSet) (sc : selectCondition) :
+    LoopStep (AggregateSet × GoErr) AggregateSet :=
+  let storage := sc.FieldStorage
+  if (sc.Operation == Count) then
+    LoopStep.next (AggregateSet.addFloat ext s storage (GoIndex.idx set'.FValues storage))
+  else if (sc.Operation == Gen.Mapr.Sum) then
+    LoopStep.next (AggregateSet.addFloat ext s storage (GoIndex.idx set'.FValues storage))
+  else if (sc.Operation == Avg) then
+    LoopStep.next (AggregateSet.addFloat ext s storage (GoIndex.idx set'.FValues storage))
+  else if (sc.Operation == Gen.Mapr.Min) then
+    if (GoIndex.idxOk set'.FValues storage).2 then
+      LoopStep.next (AggregateSet.addFloatMin ext s storage (GoIndex.idxOk set'.FValues storage).1)
+    else LoopStep.next s
+  else if (sc.Operation == Gen.Mapr.Max) then
+    if (GoIndex.idxOk set'.FValues storage).2 then
+      LoopStep.next (AggregateSet.addFloatMax ext s storage (GoIndex.idxOk set'.FValues storage).1)
+    else LoopStep.next s
+  else if (sc.Operation == Last) then
+    if (GoIndex.idxOk set'.SValues storage).2 then
+      LoopStep.next (AggregateSet.setString ext s storage (GoIndex.idxOk set'.SValues storage).1)
+    else LoopStep.next s
+  else if (sc.Operation == Len) then
+    if (GoIndex.idxOk set'.SValues storage).2 then
+      LoopStep.next (AggregateSet.setFloat ext (AggregateSet.setString ext s storage (GoIndex.idxOk set'.SValues storage).1)
+        storage (GoIndex.idx set'.FValues storage))
+    else LoopStep.next s
+  else LoopStep.ret (s, (some (gs "Unknown aggregation method '%v'")))
+
+/-- the translated `Merge` is the sample addition followed by the loop over `mergeBody` -/
+theorem Merge_eq (ext : Ext) (s : AggregateSet) (query : Gen.Mapr.Query) (set' : AggregateSet) :
+    AggregateSet.Merge ext s query set' =
+      goRange query.Select { s with Samples := s.Samples + set'.Samples } (mergeBody ext set') (fun s => (s, none)) := by
+  unfold AggregateSet.Merge mergeBody
+  rfl
+
+theorem idx_fvalues (m : GoMap GoString GoFloat) (k : Bytes) : (GoIndex.idx m k : GoFloat) = (m.get? k).getD 0 := rfl
+
+theorem idxOk_get (ν : Type) [GoZero ν] (m : GoMap GoString ν) (k : Bytes) :
+    (GoIndex.idxOk m k : ν × Bool) = (match m.get? k with | some v => (v, true) | none => (GoZero.zero, false)) := rfl
+
+/-- one iteration of the translated `Merge` loop is the model's `combine` on the column of its
+    storage key (up to `ColObs`), and touches nothing else -/
+theorem mergeBody_spec (ext : Ext) (g2 s : AggregateSet) (sc : SelCond) (hop : sc.op ≠ .undef)
+    (hwf : ColWf sc.op (colOf s sc.storage)) (hwf2 : ColWf sc.op (colOf g2 sc.storage)) :
+    ∃ s', mergeBody ext g2 s (genSel sc) = .next s' ∧
+      ColObs sc.op (colOf s' sc.storage) (combine sc.op (colOf s sc.storage) (colOf g2 sc.storage)) ∧
+      (∀ k', k' ≠ sc.storage → colOf s' k' = colOf s k') ∧ s'.Samples = s.Samples := by
+  obtain ⟨field, storage, op⟩ := sc
+  simp only at hop hwf hwf2 ⊢
+  cases op with
+  | undef => exact absurd rfl hop
+  | count =>
+    have h := addFloat_col ext s storage (GoIndex.idx g2.FValues storage)
+    refine ⟨_, by simp [mergeBody, genSel, opCode, Count], ?_, h.2.1, h.2.2⟩
+    simp only [ColWf] at hwf hwf2
+    rw [h.1]
+    simp only [ColObs, combine, idx_fvalues, colOf]
+    refine ⟨?_, by simpa [colOf] using hwf⟩
+    cases s.FValues.get? storage <;> cases g2.FValues.get? storage <;> simp [addNum]
+  | sum =>
+    have h := addFloat_col ext s storage (GoIndex.idx g2.FValues storage)
+    refine ⟨_, by simp [mergeBody, genSel, opCode, Count, Gen.Mapr.Sum], ?_, h.2.1, h.2.2⟩
+    simp only [ColWf] at hwf hwf2
+    rw [h.1]
+    simp only [ColObs, combine, idx_fvalues, colOf]
+    refine ⟨?_, by simpa [colOf] using hwf⟩
+    cases s.FValues.get? storage <;> cases g2.FValues.get? storage <;> simp [addNum]
+  | avg =>
+    have h := addFloat_col ext s storage (GoIndex.idx g2.FValues storage)
+    refine ⟨_, by simp [mergeBody, genSel, opCode, Count, Gen.Mapr.Sum, Avg], ?_, h.2.1, h.2.2⟩
+    simp only [ColWf] at hwf hwf2
+    rw [h.1]
+    simp only [ColObs, combine, idx_fvalues, colOf]
+    refine ⟨?_, by simpa [colOf] using hwf⟩
+    cases s.FValues.get? storage <;> cases g2.FValues.get? storage <;> simp [addNum]
+  | min =>
+    simp only [ColWf] at hwf hwf2
+    cases hg : g2.FValues.get? storage with
+    | none =>
+      refine ⟨s, by simp [mergeBody, genSel, opCode, Count, Gen.Mapr.Sum, Avg, Gen.Mapr.Min, idxOk_get, hg], ?_, fun _ _ => rfl, rfl⟩
+      simp only [ColObs, combine, colOf, hg, minNum] at hwf ⊢
+      cases hs : s.FValues.get? storage <;> simp [colOf, hs] at hwf ⊢ <;> simp [hwf]
+    | some x =>
+      have h := addFloatMin_col ext s storage x
+      refine ⟨_, by simp [mergeBody, genSel, opCode, Count, Gen.Mapr.Sum, Avg, Gen.Mapr.Min, idxOk_get, hg], ?_, h.2.1, h.2.2⟩
+      rw [h.1]
+      simp only [ColObs, combine, colOf, hg] at hwf ⊢
+      simp [hwf]
+  | max =>
+    simp only [ColWf] at hwf hwf2
+    cases hg : g2.FValues.get? storage with
+    | none =>
+      refine ⟨s, by simp [mergeBody, genSel, opCode, Count, Gen.Mapr.Sum, Avg, Gen.Mapr.Min, Gen.Mapr.Max, idxOk_get, hg], ?_, fun _ _ => rfl, rfl⟩
+      simp only [ColObs, combine, colOf, hg, maxNum] at hwf ⊢
+      cases hs : s.FValues.get? storage <;> simp [colOf, hs] at hwf ⊢ <;> simp [hwf]
+    | some x =>
+      have h := addFloatMax_col ext s storage x
+      refine ⟨_, by simp [mergeBody, genSel, opCode, Count, Gen.Mapr.Sum, Avg, Gen.Mapr.Min, Gen.Mapr.Max, idxOk_get, hg], ?_, h.2.1, h.2.2⟩
+      rw [h.1]
+      simp only [ColObs, combine, colOf, hg] at hwf ⊢
+      simp [hwf]
+  | last =>
+    simp only [ColWf] at hwf hwf2
+    cases hg : g2.SValues.get? storage with
+    | none =>
+      refine ⟨s, by simp [mergeBody, genSel, opCode, Count, Gen.Mapr.Sum, Avg, Gen.Mapr.Min, Gen.Mapr.Max, Last, idxOk_get, hg], ?_, fun _ _ => rfl, rfl⟩
+      simp only [ColObs, combine, colOf, hg] at hwf ⊢
+      simp [hwf]
+    | some x =>
+      have h := setString_col ext s storage x
+      refine ⟨_, by simp [mergeBody, genSel, opCode, Count, Gen.Mapr.Sum, Avg, Gen.Mapr.Min, Gen.Mapr.Max, Last, idxOk_get, hg], ?_, h.2.1, h.2.2⟩
+      rw [h.1]
+      simp only [ColObs, combine, colOf, hg] at hwf ⊢
+      simp [hwf]
+  | len =>
+    simp only [ColWf] at hwf hwf2
+    cases hg : g2.SValues.get? storage with
+    | none =>
+      refine ⟨s, by simp [mergeBody, genSel, opCode, Count, Gen.Mapr.Sum, Avg, Gen.Mapr.Min, Gen.Mapr.Max, Last, Len, idxOk_get, hg], ?_, fun _ _ => rfl, rfl⟩
+      simp [ColObs, combine, colOf, hg]
+    | some x =>
+      have h1 := setString_col ext s storage x
+      have h2 := setFloat_col ext (AggregateSet.setString ext s storage x) storage (GoIndex.idx g2.FValues storage)
+      refine ⟨AggregateSet.setFloat ext (AggregateSet.setString ext s storage x) storage (GoIndex.idx g2.FValues storage),
+        by simp [mergeBody, genSel, opCode, Count, Gen.Mapr.Sum, Avg, Gen.Mapr.Min, Gen.Mapr.Max, Last, Len, idxOk_get, hg], ?_, ?_, ?_⟩
+      · rw [h2.1, h1.1]
+        simp only [ColObs, combine, colOf, hg, idx_fvalues] at hwf2 ⊢
+        cases hn : g2.FValues.get? storage with
+        | none => simp [colOf, hn, hg] at hwf2
+        | some n => simp
+      · intro k' hk'; rw [h2.2.1 k' hk', h1.2.1 k' hk']
+      · rw [h2.2.2, h1.2.2]
+
+theorem mergeLoop_spec (ext : Ext) (g2 : AggregateSet) (sel : List SelCond)
+    (hnd : (sel.map (·.storage)).Nodup) (hops : ∀ sc ∈ sel, sc.op ≠ .undef)
+    (hwf2 : ∀ sc ∈ sel, ColWf sc.op (colOf g2 sc.storage)) :
+    ∀ s, (∀ sc ∈ sel, ColWf sc.op (colOf s sc.storage)) →
+    ∃ s', goRange (sel.map genSel) s (mergeBody ext g2) (fun s => (s, (none : GoErr))) = (s', none) ∧
+      (∀ sc ∈ sel, ColObs sc.op (colOf s' sc.storage) (combine sc.op (colOf s sc.storage) (colOf g2 sc.storage))) ∧
+      (∀ k, k ∉ sel.map (·.storage) → colOf s' k = colOf s k) ∧ s'.Samples = s.Samples := by
+  induction sel with
+  | nil => intro s _; exact ⟨s, rfl, by simp, fun _ _ => rfl, rfl⟩
+  | cons sc rest ih =>
+    intro s hwf
+    simp only [List.map_cons, List.nodup_cons] at hnd
+    obtain ⟨hnotin, hndrest⟩ := hnd
+    obtain ⟨s1, hbody, hobs1, hother1, hsam1⟩ :=
+      mergeBody_spec ext g2 s sc (hops sc (by simp)) (hwf sc (by simp)) (hwf2 sc (by simp))
+    have hne : ∀ sc' ∈ rest, sc'.storage ≠ sc.storage := by
+      intro sc' hm heq
+      exact hnotin (by rw [← heq]; exact List.mem_map_of_mem hm)
+    have hwf1 : ∀ sc' ∈ rest, ColWf sc'.op (colOf s1 sc'.storage) := by
+      intro sc' hm
+      rw [hother1 _ (hne sc' hm)]
+      exact hwf sc' (List.mem_cons_of_mem _ hm)
+    obtain ⟨s', hloop, hobs, hother, hsam⟩ :=
+      ih hndrest (fun x hx => hops x (List.mem_cons_of_mem _ hx)) (fun x hx => hwf2 x (List.mem_cons_of_mem _ hx)) s1 hwf1
+    refine ⟨s', ?_, ?_, ?_, by rw [hsam, hsam1]⟩
+    · simp only [List.map_cons, goRange_cons, hbody]
+      exact hloop
+    · intro x hx
+      rcases List.mem_cons.1 hx with rfl | hx
+      · rw [hother _ hnotin]; exact hobs1
+      · have := hobs x hx
+        rwa [hother1 _ (hne x hx)] at this
+    · intro k hk
+      simp only [List.map_cons, List.mem_cons, not_or] at hk
+      rw [hother k hk.2, hother1 k hk.1]
+
+/-- **The translated `Merge` is the model's `mergeSet`**: for a select list with pairwise different
+    storage keys (a repeated key is the recorded finding `C05-duplicate-select`) and well-formed
+    columns, merging a partial into a set adds the samples and combines every column with the
+    model's `combine` (up to `ColObs`); no error is returned and no other key is touched. -/
+theorem Merge_refines (ext : Ext) (sel : List SelCond) (hnd : (sel.map (·.storage)).Nodup)
+    (hops : ∀ sc ∈ sel, sc.op ≠ .undef) (g g2 : AggregateSet)
+    (hwf : ∀ sc ∈ sel, ColWf sc.op (colOf g sc.storage)) (hwf2 : ∀ sc ∈ sel, ColWf sc.op (colOf g2 sc.storage)) :
+    let r := AggregateSet.Merge ext g ⟨sel.map genSel⟩ g2
+    r.2 = none ∧ r.1.Samples = g.Samples + g2.Samples ∧
+    (∀ sc ∈ sel, ColObs sc.op (colOf r.1 sc.storage) (combine sc.op (colOf g sc.storage) (colOf g2 sc.storage))) ∧
+    (∀ k, k ∉ sel.map (·.storage) → colOf r.1 k = colOf g k) := by
+  intro r
+  have hwf' : ∀ sc ∈ sel, ColWf sc.op (colOf { g with Samples := g.Samples + g2.Samples } sc.storage) := hwf
+  obtain ⟨s', hloop, hobs, hother, hsam⟩ := mergeLoop_spec ext g2 sel hnd hops hwf2 _ hwf'
+  have hr : r = (s', none) := by
+    simp only [r, Merge_eq]; exact hloop
+  rw [hr]
+  exact ⟨rfl, hsam, hobs, hother⟩
+
 end Dtail.GenAgg
